@@ -327,6 +327,25 @@ func checkC17(c *Ctx) {
 	if ok, _ := ss.Valid(map[string]any{}); ok {
 		c.HarnessError("the model accepts {} against the shipped schema")
 	}
+	// the package-level default schema (before anything here runs concurrently): set to
+	// nil it stays nil, whoever asks for it in between, and rejects nothing
+	{
+		schema.Set(nil)
+		saved := schema.Get()
+		schema.Set(saved)
+		_ = schema.Get()
+		for _, doc := range []string{"{}", `{"cdiVersion":7}`, "kind: [1]\n"} {
+			if err := schema.ValidateData([]byte(doc)); err != nil {
+				c.violation("default-schema", "none-rejects", map[string]string{"entry": "package-level ValidateData after Set(nil), Get()"}, fmt.Sprintf("after Set(nil) and a Get()/Set() round trip the package-level ValidateData rejects %s: %v", doc, err), nil)
+				break
+			}
+		}
+		schema.Set(builtin)
+		if schema.ValidateData([]byte("{}")) == nil {
+			c.violation("default-schema", "verdict", map[string]string{"entry": "package-level ValidateData after Set(builtin)"}, "after Set(BuiltinSchema()) the package-level ValidateData accepts {}", nil)
+		}
+		c.Count("default_schema_round_trips", 1)
+	}
 	files := filepath.Join(c.Scratch, "docs")
 	must(os.MkdirAll(files, 0o755))
 	// thorough tier: (document, model verdict) records for the python cross-reference
@@ -589,7 +608,20 @@ func checkC17(c *Ctx) {
 			}
 		}
 		// (3) none and nil never reject a parseable document
-		for _, x := range append(entries(none, "none", true), entries(nilSchema, "nil", false)...) {
+		yamlReaders := func(sch *schema.Schema, tag string) []res {
+			// (a reader that delivers the YAML encoding: nothing to validate against, nothing to reject)
+			return []res{
+				run(tag+".ValidateReader(yaml)", func() error { return sch.ValidateReader(bytes.NewReader(yb)) }),
+				run(tag+".ReadAndValidate(yaml)", func() error {
+					data, e := sch.ReadAndValidate(iotest.OneByteReader(bytes.NewReader(yb)))
+					if e == nil && !bytes.Equal(data, yb) {
+						return fmt.Errorf("ReadAndValidate returned different data")
+					}
+					return e
+				}),
+			}
+		}
+		for _, x := range append(append(append(entries(none, "none", true), entries(nilSchema, "nil", false)...), yamlReaders(none, "none")...), yamlReaders(nilSchema, "nil")...) {
 			if x.err != nil {
 				cs.Violation("none-rejects", map[string]string{"entry": x.name}, fmt.Sprintf("%s rejects a parseable document: %v", x.name, x.err), wit([]res{x}))
 				return
